@@ -31,6 +31,7 @@ const (
 	evSync       = "SyncerProcess"
 	evTick       = "Tick"
 	evTickHdr    = "Tick+failing:header"     // the finality header fetch fails once
+	evTickHdrNF  = "Tick+failing:header-notfound" // ... with the node's "not found" answer (ethereum.NotFound)
 	evTickQuery  = "Tick+failing:infoquery"  // GetLatestInfoUntilBlock fails once with a non-sentinel error
 	evTickCheck  = "Tick+failing:isinjected" // IsGERInjected fails once
 	evTickInject = "Tick+failing:inject"     // InjectGER fails once (nothing reaches L2)
@@ -231,6 +232,11 @@ func (f *l1client) HeaderByNumber(_ context.Context, number *big.Int) (*types.He
 		w.arm, w.fired = "", true
 		w.calls = append(w.calls, "header→ERR")
 		return nil, errInjected
+	}
+	if w.arm == evTickHdrNF {
+		w.arm, w.fired = "", true
+		w.calls = append(w.calls, "header→NOTFOUND")
+		return nil, fmt.Errorf("%w: %w", errInjected, ethereum.NotFound)
 	}
 	var n uint64
 	what := ""
@@ -461,7 +467,7 @@ func (w *world) enabled() []string {
 			}
 		}
 	}
-	en = append(en, evTick, evTickHdr, evTickQuery, evTickCheck, evTickInject)
+	en = append(en, evTick, evTickHdr, evTickHdrNF, evTickQuery, evTickCheck, evTickInject)
 	cur, old := w.foreignTargets()
 	if cur != nil {
 		en = append(en, evForeign)
@@ -534,7 +540,7 @@ func (w *world) step(ev string, fromPattern bool) error {
 		w.obs("%s: blocks from %d on replaced → tip %d, syncer at %d", ev, r, w.tip(), w.pos)
 	case evTick:
 		w.tick("")
-	case evTickHdr, evTickQuery, evTickCheck, evTickInject:
+	case evTickHdr, evTickHdrNF, evTickQuery, evTickCheck, evTickInject:
 		w.tick(ev)
 	case evForeign, evForeignOld:
 		cur, old := w.foreignTargets()
